@@ -410,13 +410,15 @@ def _hist_task(item):
             for j in ids:
                 if j < len(row) and isinstance(x, id2cls[j]) != (row[j] == "1"):
                     diffs.append(("isinstance", False, f"isinstance({pretty(k)}(), class {j}) disagrees with the model"))
+    SPELLINGS = {("r", "boolean"): [("Boolean", _Boolean), ("bool", bool)], ("r", "integer"): [("Integer", Integer), ("int", int)]}
     for k, c in port_checks:
-        try:
-            ok = issubclass(c, Signal[c.type]) and isinstance(c(), Signal[c.type]) if k[3][0] == "v" else issubclass(c, Signal[c.type])
-        except Exception as ex:  # noqa
-            ok = False
-        if not ok:
-            diffs.insert(0, ("spec-port-signal", True, f"{pretty(k)} is not a subclass of Signal[{pretty(k[3])}]"))
+        for sname, wrapped in SPELLINGS.get(k[3], [(pretty(k[3]), c.type)]):
+            try:
+                ok = issubclass(c, Signal[wrapped]) and (k[3][0] != "v" or isinstance(c(), Signal[wrapped]))
+            except Exception as ex:  # noqa
+                ok = False
+            if not ok:
+                diffs.insert(0, ("spec-port-signal", True, f"{pretty(k)} is not a subclass of Signal[{sname}]"))
     n_rej = sum(1 for _, c in records if c == "reject")
     return {"diffs": diffs[:12], "classes": len(m_cls), "requests": len(records), "rejected": n_rej, "instances": n_inst,
             "distinct": len(ks)}
@@ -509,6 +511,23 @@ def lattice_history(rng, widths):
     return reqs
 
 
+def alias_history(rng):
+    """every alias spelling of the wrapped type the code accepts (`bool` / `cohdl.Boolean`, `int` / `cohdl.Integer`, `Bit`),
+    under every qualifier kind and direction, mixed freely with each other and with a few vector types: the model's
+    key is the canonical type, so identity / issubclass / isinstance are compared ACROSS spellings"""
+    reqs = []
+    for qk in QKS:
+        for d in (DIRS if qk == "port" else ["-"]):
+            for r in ("boolean", "integer", "bit"):
+                for sp in (0, 3):          # inner spelling selector = sp // 3: 0 canonical class, 1 python builtin alias
+                    reqs.append(("T", ("q", qk, d, ("r", r)), sp))
+            reqs.append(("T", ("q", qk, d, ("v", rng.choice(["bv", "uns", "sgn"]), "d", rng.choice([1, 2, 8]))), rng.randrange(27)))
+    for r in ("boolean", "integer"):
+        reqs += [("T", ("r", r), 0), ("T", ("r", r), 1)]
+    rng.shuffle(reqs)
+    return reqs[:rng.randrange(12, len(reqs) + 1)] if rng.random() < 0.5 else reqs
+
+
 def model_hist(histories):
     lines = ["hist " + " ; ".join(tok(k) for a in h for k in action_keys(a)) for h in histories]
     return lean_io.query("C13", lines)
@@ -569,6 +588,7 @@ def tie_types(ctx: Ctx):
     n_hist = ctx.scale(40, 2500)
     hists = [gen_history(rng, rng.randrange(3, 26)) for _ in range(n_hist)]
     hists += [lattice_history(rng, ws) for ws in ([[1, 2, 3], [1, 8, 65], [2, 3, 8]] * ctx.scale(1, 12))]
+    hists += [alias_history(rng) for _ in range(ctx.scale(4, 60))]
     model = model_hist(hists)
     for h, m in zip(hists, model):
         if m == "bad-op":
